@@ -41,6 +41,22 @@ SELFTEST = [
     {"mutation": "NEUTRAL: `let prior = self.fanout.remove(t).unwrap_or_default(); self.fanout.insert(t, prior.into_iter().chain(new).collect())`", "caught_by": "(silent, as intended)"},
 ]
 
+# one-edit source variants for the thorough-tier sensitivity self-test (vrules/selftest.py); each must be reported
+MUTANTS = [
+    {"name": 'fanout entry overwritten (F8)', "file": 'protocols/gossipsub/src/behaviour.rs',
+     "find": '                    self.fanout\n                        .entry(topic_hash.clone())\n                        .or_default()\n                        .extend(new_peers.iter().copied());',
+     "replace": '                    self.fanout\n                        .insert(topic_hash.clone(), new_peers.iter().copied().collect());',
+     "expect": 'store/no overwrite of the fanout entry', "why": 'earlier fanout peers dropped on the next publish'},
+    {"name": 'eligibility filter inverted', "file": 'protocols/gossipsub/src/behaviour.rs',
+     "find": '.filter(|p| candidates.contains(*p))',
+     "replace": '.filter(|p| !candidates.contains(*p))',
+     "expect": 'eligible/prior fanout peers kept iff still candidates', "why": 'still-eligible fanout peers are not published to'},
+    {"name": 'sample size ignores existing fanout peers', "file": 'protocols/gossipsub/src/behaviour.rs',
+     "find": '                        .filter(|peer_id| !recipients.contains(peer_id))\n                        .sample(&mut rand::rng(), needed_extra_peers);',
+     "replace": '                        .filter(|peer_id| !recipients.contains(peer_id))\n                        .sample(&mut rand::rng(), mesh_n);',
+     "expect": 'new/sample size', "why": 'fanout grows beyond mesh_n'},
+]
+
 
 def fanout_derived(body, e):
     x = gs.expand(body, e)
